@@ -241,6 +241,10 @@ func runB(raw json.RawMessage) *core.Violation {
 		if v := op.Expect("operator (setup)", exp, "setup"); v != nil {
 			return v
 		}
+		op.SendJSON(wsx.BarrierPkg("alice", "barrier"))
+		if v := op.Expect("operator (setup barrier)", []string{"!chat/alice/barrier"}, "setup"); v != nil {
+			return v
+		}
 	}
 	s0 := fx.Snapshot()
 
